@@ -42,6 +42,7 @@ struct Config {
     int prec_base = 0;
     int rprec_max = 0;           // explicit rule precedence values 1..rprec_max on at most rprec_rules rules
     int rprec_rules = 1;
+    bool neighbours = false;     // explore, with every seed grammar, all grammars that differ from it in exactly one symbol
     bool rich = false;           // additionally explore inputs over the terminals plus space, newline and a foreign byte (C01/C09)
     bool with_prec = false;      // enumerate precedence/associativity assignments for S/R grammars (always on for C05)
     bool verbose = false;
@@ -920,6 +921,7 @@ int main(int argc, char** argv) {
         else if (a == "--rprec-max") cfg.rprec_max = std::atoi(next().c_str());
         else if (a == "--with-prec") cfg.with_prec = true;
         else if (a == "--rich") cfg.rich = true;
+        else if (a == "--neighbours") cfg.neighbours = true;
         else if (a == "--max-per-frame") cfg.max_grammars_per_frame = std::atol(next().c_str());
         else if (a == "--one") { cfg.one = true; cfg.one_spec = next(); }
         else if (a == "--prec") cfg.one_prec = next();
@@ -948,6 +950,13 @@ int main(int argc, char** argv) {
         FrameBase* f = find_frame(g);
         if (!f) { std::fprintf(stderr, "no compiled frame for %s (NT=%d T=%d)\n", spec.c_str(), nt, t); ctr["seeds_without_frame"]++; return false; }
         explore(*f, g); ctr["seeds"]++;
+        if (cfg.neighbours) {
+            for (int i = 0; i < g.R; ++i) {
+                for (int A = 0; A < g.NT; ++A) if (A != g.lhs[i]) { Gram h = g; h.lhs[i] = A; explore(*f, h); ctr["seed_neighbours"]++; }
+                for (int j = 0; j < g.n[i]; ++j) { if (g.rhs[i][j] == ref::TERM + g.err()) continue;
+                    for (int sy = 0; sy < g.NT + g.T; ++sy) { int code = sy < g.NT ? sy : ref::TERM + (sy - g.NT); if (code == g.rhs[i][j]) continue; Gram h = g; h.rhs[i][j] = code; explore(*f, h); ctr["seed_neighbours"]++; } }
+            }
+        }
         return true;
     };
     if (!cfg.dump.empty()) {
@@ -977,10 +986,11 @@ int main(int argc, char** argv) {
         for (auto& kv : ctr) std::fprintf(stderr, "  %s = %lld\n", kv.first.c_str(), kv.second);
         return ok ? (viols.empty() ? 0 : 1) : 2;
     }
-    if (!cfg.seeds.empty() && cfg.shard == 0) {
-        std::ifstream in(cfg.seeds); std::string line;
+    if (!cfg.seeds.empty()) {
+        std::ifstream in(cfg.seeds); std::string line; long sidx = 0;
         while (std::getline(in, line)) {
             if (line.empty() || line[0] == '#') continue;
+            if ((sidx++ % cfg.nshards) != cfg.shard) continue;
             std::istringstream ls(line); int nt, t; std::string spec, prec, rprec; ls >> nt >> t >> spec >> prec >> rprec;
             if (prec == "-") prec.clear(); if (rprec == "-") rprec.clear();
             run_spec(spec, prec, rprec, nt, t);
